@@ -151,6 +151,8 @@ def build(rng, kind, nin=1, pos=0, ht=1, mutate=None, annex=None, enc=None, wn=3
         sk, pk = K.new(rng.random() < 0.8); spk = bytes([0x76, 0xa9, 20]) + h160(pk) + bytes([0x88, 0xac])
     elif kind == "p2pk":
         sk, pk = K.new(); spk = push(pk) + b"\xac"
+    elif kind == "bare-if":         # no signatures: conditionals inside / across the two scripts
+        spk = b"\x63\x51\x68" if mutate != "openif" else b"\x68\x51"          # OP_IF OP_1 OP_ENDIF   |   OP_ENDIF OP_1
     elif kind == "multisig":        # bare 2-of-3
         ks = [K.new() for _ in range(3)]; spk = b"\x52" + b"".join(push(k[1]) for k in ks) + b"\x53\xae"
     elif kind in ("p2sh", "p2sh-codesep", "p2sh-cs-unexec"):
@@ -218,6 +220,9 @@ def build(rng, kind, nin=1, pos=0, ht=1, mutate=None, annex=None, enc=None, wn=3
         usk = sk if mutate != "wrongkey" else rng.randrange(1, R.N)
         sig = ecdsa(usk, legacy_digest(tx, pos, spk, ht), ht)
         tx.vin[pos][2] = push(sig) + (push(pk) if kind == "p2pkh" else b"")
+    elif kind == "bare-if":
+        tx.vin[pos][2] = b"\x51" if mutate != "openif" else b"\x51\x63"          # OP_1   |   OP_1 OP_IF (left open: UNBALANCED_CONDITIONAL in validation)
+        valid = mutate is None
     elif kind == "multisig":
         d = legacy_digest(tx, pos, spk, ht)
         order = sorted(rng.sample(range(3), 2))
